@@ -1,11 +1,11 @@
-\* the cache rule of insights/core/filters.py:93-94 (only the component a filter is stored on is invalidated):
-\* TLC finds the stale look-up (D4) - get(I1), add(P, {1}), get(I1).  Expected result: LookupIsUnionInv violated.
+\* cache rule "component a filter is stored on + its direct dependencies" (seeded change C07-1): TLC finds the stale
+\* look-up on a datasource two levels below the registry point - get(D1), add(P, {1}), get(D1).  Expected: LookupIsUnionInv violated.
 SPECIFICATION SpecHist
 CONSTANTS
   NP = 2
   BudSet = {1}
   Depth = 5
-  CacheRule = "self"
+  CacheRule = "direct"
   AddSet = {"I1", "I2", "P", "I3", "P2", "Q1", "Q2", "K"}
   GetSet = {"I1", "I2", "P", "D1", "D0"}
   PatSets = {{1}, {2}, {0}}
